@@ -73,13 +73,6 @@ def gen_instance(rng, iid, family='random', nmax_geos=6):
   npm = max(npm, n_test + 3)
   nprng = np.random.RandomState(rng.randint(0, 2 ** 31 - 1))
   cells = gen_panel(nprng, n, n_dates, mirror=(family == 'cancel'))
-  if n >= 2 and rng.random() < 0.15:
-    # a few (geo, date) records are missing from the long frame (the canonical data object reads them as zero);
-    # every date keeps at least one record
-    for _ in range(rng.randint(1, 3)):
-      g, d = rng.randint(1, n), rng.randint(0, n_dates - 1)
-      if sum(1 for gg in range(1, n + 1) if (gg, d) in cells) > 1:
-        cells.pop((g, d), None)
   if rng.random() < 0.3:
     elig = ['ctx'] * n
     default_elig = rng.random() < 0.7
@@ -190,6 +183,19 @@ def gen_instance(rng, iid, family='random', nmax_geos=6):
   if family == 'fixedtrt':
     want_budget = True
     share = (0, 0, 0, 0)
+  if n >= 2 and rng.random() < (0.35 if (share[1] or vtol[1]) else 0.12):
+    # records missing from the long frame (the canonical data object reads them as zero): a few scattered cells,
+    # or a geo that starts reporting late; every date keeps at least one record
+    if rng.random() < 0.5:
+      g = rng.randint(1, n)
+      for d in range(rng.randint(1, max(1, n_dates // 3))):
+        if sum(1 for gg in range(1, n + 1) if (gg, d) in cells) > 1:
+          cells.pop((g, d), None)
+    else:
+      for _ in range(rng.randint(1, 3)):
+        g, d = rng.randint(1, n), rng.randint(0, n_dates - 1)
+        if sum(1 for gg in range(1, n + 1) if (gg, d) in cells) > 1:
+          cells.pop((g, d), None)
   inst = {'id': iid, 'family': family, 'n': n, 'n_dates': n_dates, 'cells': cells, 'elig': elig,
           'default_elig': default_elig, 'par': p, 'tr': tr, 'cr': cr, 'gtol': gtol, 'vtol': vtol, 'share': share,
           'nmax': nmax, 'want_budget': want_budget, 'budget': None,
@@ -317,7 +323,9 @@ def build_objects(inst, variant=None):
     edf = pd.DataFrame(erows)
     if variant.get('elig_geo_as_index'):
       edf = edf.set_index('geo')          # 'geo' can also be the index (GeoEligibility docstring)
-    elig_obj = geoeligibility.GeoEligibility(edf)
+    elig_obj = variant.get('elig_obj') or geoeligibility.GeoEligibility(edf)
+    if 'keep' in variant:
+      variant['keep']['elig'] = elig_obj
   p = inst['par']
   kw = dict(n_test=p['n_test'], iroas=p['iroas'], n_pretest_max=p['n_pretest_max'], n_designs=p['n_designs'],
             sig_level=p['sig_level'], power_level=p['power_level'], min_corr=p['min_corr'], rho_max=p['rho_max'],
@@ -528,6 +536,8 @@ def run_shared(a, b):
   mode = a['shared_mode']
   keep = {}
   box = {}
+  if mode == 'shared_elig':
+    return run_shared_elig(a, b)
 
   def construct():
     data, par_a, ids = build_objects(a, {'keep': keep})
@@ -599,6 +609,29 @@ def record_queries(inst):
   except Exception:  # pylint: disable=broad-except
     pass
   return q
+
+
+def run_shared_elig(a, b):
+  """Two data objects (two panels of the same geos) built with ONE GeoEligibility object, searched in turns."""
+  from matched_markets.methodology import tbrmatchedmarkets
+  keep = {}
+  try:
+    data_a, par_a, ids = build_objects(a, {'keep': keep})
+    data_b, par_b, ids_b = build_objects(b, {'elig_obj': keep.get('elig')})
+  except Exception as e:  # pylint: disable=broad-except
+    r = {'status': 'unconstructible', 'designs': [], 'error': '%s: %s' % (type(e).__name__, e)}
+    a['exh'] = a['greedy'] = b['exh'] = b['greedy'] = r
+    return
+  holder = {}
+
+  def mk(which):
+    if which not in holder:
+      holder[which] = tbrmatchedmarkets.TBRMatchedMarkets(data_a if which == 'a' else data_b, par_a if which == 'a' else par_b)
+    return holder[which]
+  a['exh'] = _outcome(a, lambda: ids, 'exh', 1.0, lambda: mk('a').exhaustive_search())
+  b['exh'] = _outcome(b, lambda: ids_b, 'exh', 1.0, lambda: mk('b').exhaustive_search())
+  a['greedy'] = _outcome(a, lambda: ids, 'greedy', 1.0, lambda: mk('a').greedy_search())
+  b['greedy'] = _outcome(b, lambda: ids_b, 'greedy', 1.0, lambda: mk('b').greedy_search())
 
 
 def run_instance(inst):
@@ -711,6 +744,13 @@ def make_partner(rng, a, iid):
   b['is_partner'] = True
   b['budget'] = None
   n = a['n']
+  if a['shared_mode'] == 'shared_elig':
+    # another panel of the same geos (different volumes, hence another size order), the SAME GeoEligibility object
+    nprng = np.random.RandomState(rng.randint(0, 2 ** 31 - 1))
+    b['cells'] = gen_panel(nprng, n, a['n_dates'])
+    b['want_budget'] = a['want_budget']
+    b['extra_elig_row'] = a['extra_elig_row'] = False
+    return b
   if a['shared_mode'] == 'sequential':
     b['par']['n_pretest_max'] = max(a['par']['n_test'] + 3, min(a['par']['n_pretest_max'], a['n_dates']) - rng.randint(1, 6))
     b['par']['n_designs'] = rng.choice([1, 2, 5])
@@ -757,7 +797,8 @@ def make_instances(seed, owner, count, nmax_geos=6):
     inst['decoy'] = rng.random() < 0.25
     insts.append(inst)
     if owner in ('C01', 'C03', 'C04') and inst['n'] >= 3 and inst['n'] <= 5 and rng.random() < 0.3:
-      inst['shared_mode'] = rng.choice(['interleaved', 'sequential'])
+      inst['shared_mode'] = rng.choice(['interleaved', 'sequential', 'shared_elig'] if not inst['default_elig'] else
+                                       ['interleaved', 'sequential'])
       inst['partner'] = make_partner(rng, inst, 100000 + inst['id'])
       inst['perturb_after'] = False
   return insts
